@@ -81,7 +81,17 @@ class Stream:
         pass
 
 
-def drive_loop(cr, cu, lines, sub, mb, heuristic='MI-numba-randomized', data_source='csv-raw', delimiter=','):
+def read_ckpt(pd):
+    """the checkpoint file as TEXT names and float scores (a feature may be called NA or 1: no type or missing-value inference)"""
+    if not os.path.exists('ranking_checkpoint_tmp.tsv'):
+        return None
+    return pd.read_csv('ranking_checkpoint_tmp.tsv', sep='\t', index_col=0, keep_default_na=False, na_values=[], dtype={'FeatureA': str, 'FeatureB': str})
+
+
+NAME_KINDS = [('fa', 'fb'), ('NA', 'fb'), ('1', '2'), ('null', 'None')]      # feature names that look like missing-value markers or numbers
+
+
+def drive_loop(cr, cu, lines, sub, mb, heuristic='MI-numba-randomized', data_source='csv-raw', delimiter=',', names=('fa', 'fb')):
     """real estimate_importances_minibatches over a list of lines with a recording batch scorer; returns the observations"""
     import pandas as pd
     from outrank.core_utils import BatchRankingSummary
@@ -95,14 +105,15 @@ def drive_loop(cr, cu, lines, sub, mb, heuristic='MI-numba-randomized', data_sou
     def fake_batch(line_tmp_storage, numeric_column_types, args, cpu_pool, column_descriptions, logger, pbar):
         k = len(rec['batches'])
         if k > 0:
-            rec['ckpt'].append(pd.read_csv('ranking_checkpoint_tmp.tsv', sep='\t', index_col=0) if os.path.exists('ranking_checkpoint_tmp.tsv') else None)
+            rec['ckpt'].append(read_ckpt(pd))
         rec['batches'].append([list(r) for r in line_tmp_storage])
         # like the real batch scorer, select this batch's combinations through the fair sampler (2 candidates, cap 1)
-        rec['sel'].append(list(cr.prior_combinations_sample([('fa', 'label'), ('fb', 'label')], types.SimpleNamespace(combination_number_upper_bound=1))))
+        fa, fb = names
+        rec['sel'].append(list(cr.prior_combinations_sample([(fa, 'label'), (fb, 'label')], types.SimpleNamespace(combination_number_upper_bound=1))))
         s = SCORES[k % len(SCORES)]
-        trip = [('fa', 'label', s), ('label', 'fa', s), ('fb', 'label', 20.0 - s), ('label', 'fb', 20.0 - s)]
+        trip = [(fa, 'label', s), ('label', fa, s), (fb, 'label', 20.0 - s), ('label', fb, 20.0 - s)]
         if k % 2 == 1:
-            trip.append(('fa', 'fb', 0.5 * s))
+            trip.append((fa, fb, 0.5 * s))
         rec['trip'].append(trip)
         return BatchRankingSummary(trip, {}), {}, {c: 100.0 for c in column_descriptions}, {}
     saved = (cr.compute_batch_ranking, cr.get_num_of_instances, getattr(cr, 'open', None))
@@ -114,8 +125,8 @@ def drive_loop(cr, cu, lines, sub, mb, heuristic='MI-numba-randomized', data_sou
     args = types.SimpleNamespace(disable_tqdm='True', data_source=data_source, heuristic=heuristic, task='ranking', subsampling=sub, minibatch_size=mb)
     os.chdir(d)
     try:
-        out = cr.estimate_importances_minibatches('data.csv', COLS, None, set(), args=args, cpu_pool=None, delimiter=delimiter, logger=log)
-        rec['final_ckpt'] = pd.read_csv('ranking_checkpoint_tmp.tsv', sep='\t', index_col=0) if os.path.exists('ranking_checkpoint_tmp.tsv') else None
+        out = cr.estimate_importances_minibatches('data.csv', list(names) + ['label'], None, set(), args=args, cpu_pool=None, delimiter=delimiter, logger=log)
+        rec['final_ckpt'] = read_ckpt(pd)
     finally:
         os.chdir(cwd)
         shutil.rmtree(d, ignore_errors=True)
@@ -140,7 +151,7 @@ def med_table(trips):
 def df_table(df):
     if df is None:
         return None
-    return {(r.FeatureA, r.FeatureB): float(r.Score) for r in df.itertuples()}
+    return {(r.FeatureA if isinstance(r.FeatureA, str) else repr(r.FeatureA), r.FeatureB if isinstance(r.FeatureB, str) else repr(r.FeatureB)): float(r.Score) for r in df.itertuples()}
 
 
 def check_loop(rec, kinds, sub, mb, tail_min=1024):
@@ -354,7 +365,11 @@ def run_job(job):
             for v in st['k']:
                 ctx.assume(v == 0)
             return
+        st['nm'] = z3.Int('names')
+        ctx.assume(st['nm'] >= 0, st['nm'] < (len(NAME_KINDS) if cond == 'stream' else 1))
         if cond == 'stream':
+            # names other than the plain ones only with well-formed lines (what is at stake is the aggregation, not the line filter)
+            ctx.assume(z3.Or(st['nm'] == 0, z3.And([v == 0 for v in st['k']])))
             ctx.assume(st['sub'] >= 1, st['sub'] <= 3, st['mb'] >= 1, st['mb'] <= 3)
         else:
             ctx.assume(st['sub'] >= 1, st['sub'] <= 2, st['mb'] >= 2, st['mb'] <= 3)
@@ -384,7 +399,9 @@ def run_job(job):
             if cond in ('task', 'order'):
                 probs = check_task(drive_task(lines, sub, mb, scores=scores), kinds, sub, mb)
             else:
-                probs = check_loop(drive_loop(cr, cu, [','.join(COLS) + '\n'] + lines, sub, mb), kinds, sub, mb)
+                nm = NAME_KINDS[int(SInt(st['nm'], 0, len(NAME_KINDS) - 1))] if 'nm' in st else NAME_KINDS[0]
+                w['names'] = list(nm)
+                probs = check_loop(drive_loop(cr, cu, [','.join(list(nm) + ['label']) + '\n'] + lines, sub, mb, names=nm), kinds, sub, mb)
         except Exception as e:
             import traceback
             tb = traceback.extract_tb(e.__traceback__)[-1]
@@ -407,12 +424,13 @@ def replay(w):
         if cond in ('task', 'order'):
             probs = check_task(drive_task(lines, sub, mb, scores=scores), kinds, sub, mb)
         else:
-            probs = check_loop(drive_loop(cr, cu, [','.join(COLS) + '\n'] + lines, sub, mb), kinds, sub, mb)
+            nm = tuple(w.get('names') or NAME_KINDS[0])
+            probs = check_loop(drive_loop(cr, cu, [','.join(list(nm) + ['label']) + '\n'] + lines, sub, mb, names=nm), kinds, sub, mb)
     except Exception as e:
         import traceback
         tb = traceback.extract_tb(e.__traceback__)[-1]
         return {'reproduced': True, 'signature': f'C08:{cond}:exception:{type(e).__name__}:{tb.name}', 'what': f'{cond}: lines {w["kinds"]}, subsampling {sub}, minibatch {mb}: {type(e).__name__}: {e} in {tb.name} ({os.path.basename(tb.filename)}:{tb.lineno})'}
     if probs:
         key = probs[0].split()[0]
-        return {'reproduced': True, 'signature': f'C08:{cond}:{key}', 'what': f'{cond}: line kinds {w["kinds"]} (0 good, 1 short, 2 long, 3 blank, 4 quoted delimiter), subsampling {sub}, minibatch {mb}' + ('' if w.get('eol', True) else ', last line without terminator') + (f', scores {w["scores"]} for {NEAR_PAIRS}' if w.get('scores') else '') + ': ' + '; '.join(probs)[:600]}
+        return {'reproduced': True, 'signature': f'C08:{cond}:{key}', 'what': f'{cond}: line kinds {w["kinds"]} (0 good, 1 short, 2 long, 3 blank, 4 quoted delimiter), subsampling {sub}, minibatch {mb}' + (f', feature names {w["names"]}' if w.get('names') and tuple(w['names']) != NAME_KINDS[0] else '') + ('' if w.get('eol', True) else ', last line without terminator') + (f', scores {w["scores"]} for {NEAR_PAIRS}' if w.get('scores') else '') + ': ' + '; '.join(probs)[:600]}
     return {'reproduced': False, 'what': 'reference semantics observed'}
